@@ -85,3 +85,32 @@ Proof.
   intros H1 H2 P1 O1 P2 O2.
   rewrite (full_subset n S1 S1' H1 P1 O1), (full_subset n S2 S2' H2 P2 O2). reflexivity.
 Qed.
+
+(* ---------------- any factor in (0,1] ---------------- *)
+Lemma subset_ok_spec f n S :
+  subset_ok f n S = true <->
+  Z.of_nat (length S) = n_bootstrap f n /\ Forall (fun j => j < n) S /\ NoDup S.
+Proof.
+  unfold subset_ok. rewrite !andb_true_iff, Z.eqb_eq, forallb_forall, znodup_b_spec, Forall_forall.
+  split.
+  - intros [[H1 H2] H3]. split; [exact H1|]. split.
+    + intros j Hj. apply Nat.ltb_lt. apply H2. exact Hj.
+    + apply nodup_map_of_nat. exact H3.
+  - intros (H1 & H2 & H3). split; [split; [exact H1|]|].
+    + intros j Hj. apply Nat.ltb_lt. apply H2. exact Hj.
+    + apply FinFun.Injective_map_NoDup; [intros a b; apply Nat2Z.inj | exact H3].
+Qed.
+
+(* the number of markers drawn: at least one, never more than there are -- so a
+   duplicate-free draw of that size exists *)
+Lemma n_bootstrap_range f n : (0 < fst f <= snd f)%Z -> 0 < n -> (1 <= n_bootstrap f n <= Z.of_nat n)%Z.
+Proof.
+  intros [Ha Hd] Hn. unfold n_bootstrap. destruct (Nat.eqb_spec n 0) as [E | _]; [lia|].
+  assert (Hr : (round_half_even (fst f * Z.of_nat n, snd f) <= Z.of_nat n)%Z).
+  { rewrite <- (round_integer (Z.of_nat n) (snd f)) at 2 by lia.
+    apply round_mono; cbn [fst snd]; try lia. unfold rat_le. cbn [fst snd].
+    replace (fst f * Z.of_nat n * snd f)%Z with (fst f * (Z.of_nat n * snd f))%Z by ring.
+    replace (Z.of_nat n * snd f * snd f)%Z with (snd f * (Z.of_nat n * snd f))%Z by ring.
+    apply Z.mul_le_mono_nonneg_r; [apply Z.mul_nonneg_nonneg; lia | exact Hd]. }
+  lia.
+Qed.
